@@ -5,7 +5,7 @@ LEVEL = "proof"
 
 
 def contracts():
-    return [A.control_integral_apply, A.control_pi_apply, A.step_attempt_contract(False), A.step_attempt_contract(True), A.step_contract(False), A.step_contract(True), A.loop_contract(False), A.loop_contract(True), A.solve_contract(False), A.solve_contract(True)]
+    return [A.control_integral_apply, A.control_pi_apply, A.step_attempt_contract(False), A.step_attempt_contract(True), A.step_contract(False), A.step_contract(True), A.loop_contract(False), A.loop_contract(True), A.solve_contract(False), A.solve_contract(True), A.terminal_values_contract()]
 
 
 def extra_checks(tier, seed):
